@@ -100,6 +100,11 @@ Fragment(d) ==
                                  EXCEPT !.frames = <<[code |-> <<"g">>, items |-> <<It(Wd("_d1"), Bare(C1("1")))>>]>>, !.lastonly = TRUE]
       [] d = "overlength" -> [F(LongLine(2049), 108) EXCEPT !.extra = 0]
       [] d = "maxlength" -> F(LongLine(2048), 0)
+      \* ordinary values that merely look like reserved words (only data_* and save_* are reserved as prefixes): no defect
+      [] d = "lookalike_stop" -> [F(Wd("_d1") \o Sp \o <<"s", "t", "o", "p", "_", "c", "o", "d", "o", "n">>, 0) EXCEPT !.items = <<It(Wd("_d1"), Bare(<<"s", "t", "o", "p", "_", "c", "o", "d", "o", "n">>))>>]
+      [] d = "lookalike_loop" -> [F(Wd("_d1") \o Sp \o <<"l", "o", "o", "p", "_", "x">>, 0) EXCEPT !.items = <<It(Wd("_d1"), Bare(<<"l", "o", "o", "p", "_", "x">>))>>]
+      [] d = "lookalike_global" -> [F(Wd("_d1") \o Sp \o <<"G", "L", "O", "B", "A", "L", "_", "1">>, 0) EXCEPT !.items = <<It(Wd("_d1"), Bare(<<"G", "L", "O", "B", "A", "L", "_", "1">>))>>]
+      [] d = "lookalike_qmark" -> [F(Wd("_d1") \o Sp \o <<"?", "a", "b", "c">>, 0) EXCEPT !.items = <<It(Wd("_d1"), Bare(<<"?", "a", "b", "c">>))>>]
       [] d = "overlength_u4" -> [F(LongLineU(2049), 108) EXCEPT !.extra = 0]
       [] d = "maxlength_u4" -> F(LongLineU(2048), 0)
       [] d = "long_u4_value" -> [F(Wd("_d1") \o Sp \o Q([i \in 1..1100 |-> "<U4>"]), 0) EXCEPT !.items = <<It(Wd("_d1"), Ch([i \in 1..1100 |-> "<U4>"]))>>]
